@@ -109,7 +109,7 @@ AddField(f) ==
        \* LABEL_REQUIRED (like TYPE_GROUP) is proto2 spelling; editions files say it with features
        ELSE {AppendField(f, i, NewField(nm, n, s.l, s.t, "")) : s \in {q \in ScalarShapes : q.l # 2 \/ f.syntax = "proto2"}}
             \cup {AppendField(f, i, NewField(nm, n, l, KMessage, RefTo(MsgFullOf(f, r), f.msgs[r].name, st))) :
-                    r \in {q \in 1..NM(f) : Plain(f.msgs[q])}, l \in {1, 3}, st \in RefStyles}
+                    r \in {q \in 1..NM(f) : Plain(f.msgs[q])}, l \in {1, 3} \cup (IF f.syntax = "proto2" THEN {2} ELSE {}), st \in RefStyles}
             \cup {AppendField(f, i, NewField(nm, n, l, KEnum, RefTo(EnumFullOf(f, r), f.enums[r].name, st))) :
                     r \in 1..Len(f.enums), l \in {1, 3}, st \in RefStyles}
             \cup (IF f.deps = <<>> THEN {}
@@ -151,6 +151,12 @@ AddComposite(f) ==
                \* oneofs
                \cup (IF noSynth THEN {[AppendField(f, i, [NewField("m" \o ToString(k), n, 1, 5, "") EXCEPT !.oneof = Len(m.oneofs) + 1])
                                          EXCEPT !.msgs[i].oneofs = Append(@, [name |-> oname])]} ELSE {})
+               \* two members that share a JSON name (protodesc accepts that): keyed lookups must stay first-wins
+               \cup (IF noSynth /\ Len(m.fields) + 1 < MaxFields + 1
+                     THEN {[f EXCEPT !.msgs[i].oneofs = Append(@, [name |-> oname]),
+                                     !.msgs[i].fields = @ \o <<[NewField("m" \o ToString(k), n, 1, 5, "") EXCEPT !.oneof = Len(m.oneofs) + 1, !.hj = TRUE, !.json = "sameJson"],
+                                                              [NewField("m" \o ToString(k + 1), n + 1, 1, 9, "") EXCEPT !.oneof = Len(m.oneofs) + 1, !.hj = TRUE, !.json = "sameJson"]>>]}
+                     ELSE {})
                \cup (IF lastIn THEN {AppendField(f, i, [NewField("m" \o ToString(k), n, 1, t, "") EXCEPT !.oneof = Len(m.oneofs)]) : t \in {5, 9}}
                                     \cup {AppendField(f, i, [NewField("m" \o ToString(k), n, 1, KMessage, "." \o full) EXCEPT !.oneof = Len(m.oneofs)])}
                      ELSE {})
